@@ -551,6 +551,53 @@ Proof.
     rewrite (scan_piece_own cf pc _ Hpct Hpc). rewrite (IH Hr). f_equal. f_equal. rewrite app_length. lia.
 Qed.
 
+(* a readable sufficient condition for pieces_ok: the literal as a whole does not end in white space,
+   or what follows it does not start with white space *)
+Lemma lit_pieces_nil : forall t, lit_pieces t = [] -> t = [].
+Proof.
+  intros [|c r] H; [reflexivity|]. cbn [lit_pieces] in H.
+  destruct (c =? c_pct); [discriminate|]. destruct (lit_pieces r) as [|[u|] ps]; discriminate.
+Qed.
+
+Lemma lit_pieces_run_nonempty : forall t u ps, lit_pieces t = LRun u :: ps -> u <> [].
+Proof.
+  intros [|c r] u ps H; [discriminate|]. cbn [lit_pieces] in H.
+  destruct (c =? c_pct); [discriminate|].
+  destruct (lit_pieces r) as [|[u'|] ps']; inversion H; discriminate.
+Qed.
+
+Lemma lit_ok_cons : forall c u Y, u <> [] -> lit_ok u Y -> lit_ok (c :: u) Y.
+Proof.
+  intros c u Y Hu [H|H]; [left|now right]. destruct u as [|d u']; [congruence|]. exact H.
+Qed.
+
+Lemma lit_ok_tail : forall c r Y, lit_ok (c :: r) Y -> lit_ok r Y.
+Proof.
+  intros c r Y [H|H]; [|now right]. destruct r as [|d r']; [left; exact I|left; exact H].
+Qed.
+
+Lemma lit_pieces_ok : forall t X, lit_ok t X -> pieces_ok (lit_pieces t) X.
+Proof.
+  induction t as [|c r IH]; intros X Hok; [exact I|].
+  pose proof (IH X (lit_ok_tail c r X Hok)) as IHr.
+  cbn [lit_pieces]. destruct (N.eqb_spec c c_pct) as [->|Hc].
+  - cbn [pieces_ok]. exact IHr.
+  - destruct (lit_pieces r) as [|[u|] ps] eqn:E.
+    + (* r = [] : the single character run *)
+      apply lit_pieces_nil in E. subst r. cbn [pieces_ok pieces_text flat_map app]. split; [exact Hok|exact I].
+    + cbn [pieces_ok] in *. destruct IHr as [Hu Hps]. split; [|exact Hps].
+      apply lit_ok_cons; [exact (lit_pieces_run_nonempty r u ps E) | exact Hu].
+    + cbn [pieces_ok] in *. split; [|exact IHr].
+      right. unfold pieces_text. cbn [flat_map piece_text app]. reflexivity.
+Qed.
+
+Fixpoint lits_simple (cf : config) (its : list pitem) (rest : text) : Prop :=
+  match its with
+  | [] => True
+  | PLit t :: r => lit_ok t (print_items cf r ++ rest) /\ lits_simple cf r rest
+  | _ :: r => lits_simple cf r rest
+  end.
+
 (* every literal of the sequence is matched by its own text, given what is written after it *)
 Fixpoint lits_ok (cf : config) (its : list pitem) (rest : text) : Prop :=
   match its with
@@ -558,6 +605,13 @@ Fixpoint lits_ok (cf : config) (its : list pitem) (rest : text) : Prop :=
   | PLit t :: r => pieces_ok (lit_pieces t) (print_items cf r ++ rest) /\ lits_ok cf r rest
   | _ :: r => lits_ok cf r rest
   end.
+
+Lemma lits_simple_ok : forall cf its rest, lits_simple cf its rest -> lits_ok cf its rest.
+Proof.
+  intros cf its rest. induction its as [|it its IH]; intros H; [exact I|].
+  destruct it as [t | v | sp v]; cbn [lits_simple lits_ok] in *; auto.
+  destruct H as [Ht H]. split; [now apply lit_pieces_ok | auto].
+Qed.
 
 (* String source: scanning at position |pre| reads the values back and returns the position
    just after the written text *)
